@@ -107,6 +107,18 @@ impl genotype::Reader for SimGenotypeSource {
     fn read_genotypes(&mut self) -> ReadStatus<Vec<genotype::Result>> {
         let mut st = self.stats.borrow_mut();
         st.reads += 1;
+        if crate::harness::trace_on() {
+            crate::harness::trace_note(format!(
+                "   genotype source read #{}: {}",
+                st.reads,
+                match self.items.get(self.cursor) {
+                    None => "Done".to_string(),
+                    Some(Item::Rec { contig, pos, g }) => format!("record {contig}:{pos} {g:?}"),
+                    Some(Item::SourceError { contig, pos }) => format!("FAULT source error at {contig}:{pos}"),
+                    Some(Item::DoneOnce) => "FAULT Done (once), stream continues".to_string(),
+                }
+            ));
+        }
         match self.items.get(self.cursor) {
             None => ReadStatus::Done,
             Some(item) => {
